@@ -924,7 +924,9 @@ class UTMITranslator(Elaboratable):
             self.tx_ready                 .eq(transmit_translator.tx_ready),
 
             # Connect our inputs to our control translator / register window.
-            control_translator.bus_idle   .eq(~transmit_translator.busy & phy_ready),
+            # A pending transmission wins the bus: the transmit translator only reports busy once its
+            # transmit command has been accepted, so also hold off new register writes while tx_valid is high.
+            control_translator.bus_idle   .eq(~transmit_translator.busy & ~self.tx_valid & phy_ready),
             register_window.ulpi_data_in  .eq(self.ulpi.data.i),
             register_window.ulpi_dir      .eq(self.ulpi.dir.i),
             register_window.ulpi_next     .eq(self.ulpi.nxt.i),
